@@ -13,6 +13,7 @@
   Codecs are parameters (`b32` hard-wired Base32, `down` the downstream codec).  Core Lean only.
 -/
 import SA.Model.DnsReq
+import SA.Gen.C12Nul
 
 namespace SA.DnsResp
 open SA.DnsWire SA.WireCodec SA.DnsReq
@@ -53,6 +54,11 @@ def encodeResp (b32 down : Codec) : Resp → List Nat
     `errors.WithStack(nil)`, i.e. success with no error recorded -/
 def errText (rest : List Nat) : Option (List Nat) := if rest.contains 0 then none else some rest
 
+/-- the same read with the guard the decoders have now (regenerated fact `errTextNulRejected`): a NUL inside the text is
+    a malformed answer (decode error); without the guard it used to be "success, no error recorded" -/
+def withErr {α : Type} (rest : List Nat) (k : Option (List Nat) → α) : Dec α :=
+  if rest.contains 0 then (if SA.Gen.errTextNulRejected then .err else .ok (k none)) else .ok (k (some rest))
+
 /-- strconv.ParseInt(s, 36, 16) of two characters, then uint16() -/
 def parseUid36 (a b : Nat) : Option Nat :=
   if a = 43 ∨ a = 45 then
@@ -81,19 +87,19 @@ def decodeBody (b32 down : Codec) (code : Nat) (data : List Nat) : Dec Resp :=
           | some (ver, r) =>
             match r with
             | [] => .err
-            | st :: txt => if st % 2 = 1 then .ok (.version ver uid (errText txt)) else .ok (.version ver uid none)
+            | st :: txt => if st % 2 = 1 then withErr txt (fun e => .version ver uid e) else .ok (.version ver uid none)
     | _ => .err        -- "Version response too short!"
   else if code = 111 then
     match b32.dec rest with
     | none => .err
     | some [] => .err
-    | some (st :: txt) => if st % 2 = 1 then .ok (.options (errText txt)) else .ok (.options none)
+    | some (st :: txt) => if st % 2 = 1 then withErr txt (fun e => .options e) else .ok (.options none)
   else if code = 99 then
     match down.dec rest with
     | none => .err
     | some [] => .err
     | some (st :: r) =>
-      if st = 255 then .ok (.packet (errText r) 0 none)
+      if st = 255 then withErr r (fun e => .packet e 0 none)
       else if st = 1 then
         match rd16 r with
         | none => .err
@@ -123,20 +129,20 @@ def decodeBody (b32 down : Codec) (code : Nat) (data : List Nat) : Dec Resp :=
     match b32.dec rest with
     | none => .err
     | some [] => .err
-    | some (st :: r) => if st % 2 = 1 then .ok (.upEnc (errText r) []) else .ok (.upEnc none r)
+    | some (st :: r) => if st % 2 = 1 then withErr r (fun e => .upEnc e []) else .ok (.upEnc none r)
   else if code = 114 then
     match down.dec rest with
     | none => .err
     | some [] => .err
     | some (st :: r) =>
-      if st % 2 = 1 then .ok (.fragSize (errText r) 0 [])
+      if st % 2 = 1 then withErr r (fun e => .fragSize e 0 [])
       else match rd32 r with
         | none => .err
         | some (f, d) => .ok (.fragSize none f d)
   else if code = 101 then
     match b32.dec rest with
     | none => .err
-    | some t => .ok (.error (errText t))
+    | some t => withErr t (fun e => .error e)
   else .panic
 
 def hasResponse (code : Nat) : Bool :=
